@@ -1,8 +1,22 @@
 package main
 
-import "golang.org/x/tools/go/packages"
-
-// genTables emits constants / tables (Gen/Consts.v, Gen/Schemas.v ...).
-func genTables(repo, out string, pkgs []*packages.Package) error {
+// genTables emits the table-like units (schemas, constants): each is a named
+// unit selectable with -only like the function units.
+func genTables(repo, out string, all bool, want map[string]bool, man *[]manifestEntry) error {
+	if all || want["Schemas"] {
+		if err := genSchemas(repo, out, man); err != nil {
+			return err
+		}
+	}
+	if all || want["Routes"] { // C27: API route table of newServerMux (tables_api.go)
+		if err := genApiTables(repo, out); err != nil {
+			return err
+		}
+	}
+	if all || want["Crypto"] { // C14/C10/C16: secp256k1 constants, BIP39 word list, bip32 constants (tables_crypto.go)
+		if err := genCryptoTables(repo, out); err != nil {
+			return err
+		}
+	}
 	return nil
 }
